@@ -11,7 +11,7 @@ CONSTANTS
     Ticks = {1}
     Mode = "mc"
     Depth = 0
-VIEW ViewMCr
-INVARIANTS TypeOK AdmittedPerWindow IntrospectionsPerWindow SlidingBound
-PROPERTIES ResolverOnlyWhen RateObserved RunsObserved Refused403 RejectedUnread Unresolvable404 DisabledResolvesNothing NoLeak ResolvesWhenEntitled
+VIEW ViewMC
+INVARIANTS TypeOK AdmittedPerWindow SlidingBound
+PROPERTIES ResolverOnlyWhen RateObserved Refused403 RejectedUnread Unresolvable404 DisabledResolvesNothing NoLeak ResolvesWhenEntitled
 CHECK_DEADLOCK FALSE
